@@ -150,7 +150,7 @@ def run(ctx):
     forms = []
     for s in strings:
         forms.append(({"s": s}, s in ("same", "valid"), "str"))
-    for s in ["same", "valid", "full", ""]:
+    for s in ["same", "valid", "full", "", "s", "v", "0", "1", "\x00", "sa"]:
         forms.append(({"y": s.encode().hex()}, False, "bytes"))
     for kind in ("Conv1d", "Conv2d"):
         for pad, ok, form in forms:
@@ -175,3 +175,34 @@ def run(ctx):
                     {"site": kind, "padding": form, "input_shape": "given" if shape_given else "none"},
                     types_defined=shape_given)
     ctx.compare("nodes", cases, obs, reqs)
+    # accepted neuron nodes declare the shape of *their* parameters whatever happened to nodes built before them: an
+    # earlier node's declared type arrays are edited in place, then a node with parameters of the same shape is built
+    import nir
+    for _ in range(ctx.n(40, 200)):
+        kind = rng.choice(["IF", "LI", "LIF", "CubaLIF", "I"])
+        sh = tuple(rng.randrange(1, 4) for _ in range(rng.randrange(0, 3)))
+        flds = {"IF": ["r", "v_threshold"], "LI": ["tau", "r", "v_leak"], "LIF": ["tau", "r", "v_leak", "v_threshold"],
+                "CubaLIF": ["tau_syn", "tau_mem", "r", "v_leak", "v_threshold"], "I": ["r"]}[kind]
+        mk = lambda k=kind, f=flds: getattr(nir, k)(**{x: np.ones(sh) for x in f})
+        case = {"op": "neuron_after_inplace_edit", "kind": kind, "shape": list(sh)}
+        ctx.case(case); ctx.count("neuron_after_inplace_edit")
+        try:
+            first = mk()
+            t = first.input_type["input"]
+            if t.size:
+                t[...] = 99                              # a consumer scribbling on the declared type, in place
+            else:
+                first.input_type["input"] = np.array([99])
+            node = mk()
+            got = (_ints(node.input_type["input"]), _ints(node.output_type["output"]), _ints(first.output_type["output"]))
+        except Exception as e:  # noqa
+            got = f"raised {type(e).__name__}"
+        want_first_out = list(sh)
+        if not isinstance(got, tuple) or got[0] != list(sh) or got[1] != list(sh) or got[2] != want_first_out:
+            ctx.violate(case, f"{kind}: an accepted node does not declare the shape of its own parameters after an earlier node's "
+                        "type array was edited in place (or its two types share one array)",
+                        {"site": kind, "what": "state-between-constructions"}, observed=str(got), required=str(list(sh)))
+
+
+def _ints(v):
+    return None if v is None else [int(x) for x in np.asarray(v).ravel()]
